@@ -37,6 +37,14 @@ theorem cancel_is_recorded (e : Env) (f : Nat) (sk : Sk) (st st' : St)
   let hd := d (Or.inl (userLevel_wf sk hu).2)
   ⟨hd.2, hd.1⟩
 
+/-- A cancelled run never reports success (7cff692): if the context is cancelled when the program
+    ends, `Run` returns the context's error unless the last command itself failed (then that
+    failure status is returned) — also when the cancellation struck during the very last command,
+    after which no stop check follows. -/
+theorem cancel_never_success (e : Env) (st' : St) (hc : cancelled e st' = true) :
+    reported e st' = true ∨ st'.ok = false := by
+  cases h : st'.ok <;> simp [reported, hc, h]
+
 /-- Bounded unwind: for every program, oracle and schedule — cancellation may strike anywhere in
     the run — the number of model steps taken while the context is cancelled is at most `unwind sk`,
     which no longer depends on how many iterations any loop has left: every loop contributes its
